@@ -5,7 +5,7 @@ CONSTANT Docs <- D1
 CONSTANT ChanMenu <- CM2
 CONSTANT RoleMenu <- RM2
 CONSTANT GrantMenu <- GM4
-CONSTANT MaxSteps = 6
+CONSTANT MaxSteps = 5
 CONSTANT SplitWrite = TRUE
 CONSTANT SplitLoad = FALSE
 SPECIFICATION Spec
